@@ -852,7 +852,11 @@ impl<'a, 'input: 'a> FromValue<'a, 'input> for &'a str {
 
 impl<'a, 'input: 'a> FromValue<'a, 'input> for f32 {
     fn parse(_: SvgNode, _: AId, value: &str) -> Option<Self> {
-        svgtypes::Number::from_str(value).ok().map(|v| v.0 as f32)
+        // A number that doesn't fit into f32 is invalid.
+        svgtypes::Number::from_str(value)
+            .ok()
+            .map(|v| v.0 as f32)
+            .filter(|n| n.is_finite())
     }
 }
 
@@ -963,6 +967,11 @@ impl<'a, 'input: 'a> FromValue<'a, 'input> for Vec<f32> {
         let mut list = Vec::new();
         for n in svgtypes::NumberListParser::from(value) {
             list.push(n.ok()? as f32);
+        }
+
+        // A number that doesn't fit into f32 is invalid.
+        if list.iter().any(|n| !n.is_finite()) {
+            return None;
         }
 
         Some(list)
